@@ -18,6 +18,7 @@ spec = {
              {'at':, 'op': 'close'}],
   'horizon': <ticks>, 'seed': int }
 """
+import itertools
 import random
 import socket as _socket
 
@@ -96,7 +97,7 @@ def _install_hooks():
   def rec(*ev):
     w = V._CUR[0]
     if w is not None and hasattr(w, 'trace'):
-      w.trace.append((ticks(w.clock.now),) + ev)
+      w.trace.append((ticks(w.clock.now),) + ev + (w.next_seq(),))
 
   def callid(msg):
     try:
@@ -175,6 +176,57 @@ def _install_hooks():
       rec('complete', w.stack_of.get(id(sink_stack)), type(err).__name__ if err is not None else 'value')
     return orig_done(self, sink_stack, context, stream, msg)
   dp._AsyncResponseSink.AsyncProcessResponse = rs_done
+  import scales.thrift.sink as ts
+  import scales.mux.sink as ms
+  orig_ser = ts.SocketTransportSink.AsyncProcessRequest
+
+  def ser_req(self, sink_stack, msg, stream, headers):
+    busy = self._processing is not None
+    r = orig_ser(self, sink_stack, msg, stream, headers)
+    cid = callid(msg)
+    if cid is not None:
+      rec('to-serial', cid, not busy)
+    return r
+  ts.SocketTransportSink.AsyncProcessRequest = ser_req
+  orig_mux = ms.MuxSocketTransportSink.AsyncProcessRequest
+
+  def mux_req(self, sink_stack, msg, stream, headers):
+    cid = callid(msg)
+    before = msg.properties.get('__Tag') if cid is not None else None
+    r = orig_mux(self, sink_stack, msg, stream, headers)
+    if cid is not None:
+      tag = msg.properties.get('__Tag')
+      rec('to-sendq', cid, tag if tag != before or tag else None)
+    return r
+  ms.MuxSocketTransportSink.AsyncProcessRequest = mux_req
+  tag_owner = {}
+  _HOOKS['tag_owner'] = tag_owner
+  orig_mux2 = ms.MuxSocketTransportSink.AsyncProcessRequest
+
+  def mux_req2(self, sink_stack, msg, stream, headers):
+    r = orig_mux2(self, sink_stack, msg, stream, headers)
+    cid = callid(msg)
+    tag = msg.properties.get('__Tag') if cid is not None else None
+    if tag:
+      tag_owner[(id(self), tag)] = cid
+    return r
+  ms.MuxSocketTransportSink.AsyncProcessRequest = mux_req2
+  orig_tr = ms.MuxSocketTransportSink._ProcessTaggedReply
+
+  def tagged_reply(self, tag, stream):
+    known = tag in getattr(self, '_tag_map', {})
+    if known:
+      rec('answered', tag_owner.get((id(self), tag)), tag)
+    return orig_tr(self, tag, stream)
+  ms.MuxSocketTransportSink._ProcessTaggedReply = tagged_reply
+  import scales.thriftmux.sink as tms
+  orig_ot = tms.SocketTransportSink._OnTimeout
+
+  def on_timeout(self, tag):
+    if tag:
+      rec('notify', tag_owner.get((id(self), tag)), tag)
+    return orig_ot(self, tag)
+  tms.SocketTransportSink._OnTimeout = on_timeout
   _HOOKS['ok'] = True
 
 
@@ -192,6 +244,7 @@ def run(spec):
   rng = random.Random(spec.get('seed', 0))
   w = V.World(rng, t0=T0, tie=spec.get('tie', 'fifo'), resolution=spec.get('resolution', 1) * V.TICK)
   w.trace = []
+  w.next_seq = itertools.count(1).__next__
   w.stack_of = {}
   w.keep = []
   _install_hooks()
@@ -298,7 +351,7 @@ def _run(spec, w):
 
       def on_done(a, rec=rec):
         k, v = outcome_kind(a)
-        rec['done'].append({'at': ticks(w.clock.now), 'kind': k, 'value': v})
+        rec['done'].append({'at': ticks(w.clock.now), 'kind': k, 'value': v, 'seq': w.next_seq()})
       ar.rawlink(on_done)
       rec['_ar'] = ar
     elif op == 'join':
@@ -329,8 +382,9 @@ def _run(spec, w):
   for port, srv in servers.items():
     trace['servers'][str(port)] = {
         'requests': [{'at': ticks(r['time']), 'conn': r['conn'], 'id': r['arg'].split('|')[0], 'method': r['method'],
-                      'tag': r.get('tag')} for r in srv.requests],
-        'discards': [{'at': ticks(d['time']), 'conn': d['conn'], 'named': d['named'], 'frame_tag': d['frame_tag']} for d in srv.discards],
+                      'tag': r.get('tag'), 'seq': r.get('seq'), 'arg': r['arg']} for r in srv.requests],
+        'discards': [{'at': ticks(d['time']), 'conn': d['conn'], 'named': d['named'], 'frame_tag': d['frame_tag'],
+                      'seq': d.get('seq')} for d in srv.discards],
         'connects': [[ticks(t), str(o)] for t, o in srv.connect_log],
         'malformed': [str(m) for m in srv.malformed],
         'frames': [[ticks(t), c, ty, tg, ln] for t, c, ty, tg, ln in srv.frames],
@@ -338,6 +392,7 @@ def _run(spec, w):
   trace['crashes'] = list(w.crashes)
   trace['events'] = [list(x) for x in w.trace]
   trace['netlog'] = [[ticks(x[0])] + [str(y) for y in x[1:]] for x in w.log]
+  trace['closes'] = [[ticks(t), port, cid, sq] for (t, port, cid, sq) in getattr(w, 'closes', [])]
   if client is not None and not closed[0]:
     try:
       client.DispatcherClose()
